@@ -22,7 +22,7 @@ def run(pid, replay=None):
         free_n = 0
     else:
         cfg = "MC_fixed.cfg" if thorough else "MC_quick.cfg"
-        mc = vlib.run_tlc(pid, "mc", SPEC, "Pool", cfg, timeout=3000)
+        mc = vlib.run_tlc(pid, "mc", SPEC, "Pool", cfg, timeout=3000, cache=True)
         if not os.environ.get("VERIF_DEV_SKIP_MC"):
             vlib.tlc_must_pass(mc, "Pool " + cfg)
         log("Pool %s: %d generated / %d distinct states, %.1fs" % (cfg, mc.generated, mc.distinct, mc.wall))
